@@ -59,14 +59,25 @@ def setup():
             continue
         ok, msg = run_translators(plugin, print)
         print("setup: %s: %s" % (pid, msg.splitlines()[0]))
+    failed = []
     with C.BuildLock():
         C.refresh_coqproject()
-        rc, out = C.make([], keep_going=True)
-    print(out[-3000:])
+        rc, out, _ = C.mini_make(["Lib/Prelude.v"])
+        print(out)
+        for pid in plugin_ids():
+            try:
+                dep = getattr(load_plugin(pid), "DEPENDS", ())
+            except Exception:
+                dep = ()
+            rc, out, compiled = C.mini_make(C.prop_files(pid, dep), jobs=16)
+            print("setup: %s: rc=%d, compiled %d files" % (pid, rc, len(compiled)))
+            if rc != 0:
+                failed.append(pid)
+                print(out[-2500:])
     bad = C.forbidden_gate()
     for b in bad:
         print("setup: FORBIDDEN " + b)
-    print("setup: make rc=%s, %d forbidden, %.0fs" % (rc, len(bad), time.time() - t0))
+    print("setup: failed=%s, %d forbidden, %.0fs" % (failed, len(bad), time.time() - t0))
     return 0
 
 
@@ -81,23 +92,19 @@ def build_property(plugin, pid):
         res["ok"] = False
         res["broken"] = "translator"
     props_rel = "Props/%s.v" % pid
-    check_rel = "Check/%s_Check.v" % pid
-    targets = [check_rel + "o"]
-    extra = getattr(plugin, "EXTRA_VFILES", [])
-    targets += [e + "o" for e in extra]
-    has_props = os.path.exists(os.path.join(C.COQ, props_rel))
-    if has_props:
-        targets.append(props_rel + "o")
+    files = C.prop_files(pid, getattr(plugin, "DEPENDS", ()))
+    has_props = props_rel in files
     with C.BuildLock():
         C.refresh_coqproject()
-        rc, out = C.make(targets)
-    res["checker_cmd"].append("cd coq && coq_makefile -f _CoqProject -o Makefile && make -j16 " + " ".join(targets))
+        rc, out, _ = C.mini_make(files)
+    res["files"] = files
+    res["checker_cmd"].append("coqc -q -noglob -Q coq Boltons <each of: %s> (dependency order, full .vo)" % " ".join(files))
     if rc != 0:
         res["ok"] = False
         res.setdefault("broken", "build")
         res["messages"].append(out[-4000:])
-        m = re.search(r'File "\./([^"]+)", line (\d+)', out)
-        res["failed_file"] = m.group(1) if m else "?"
+        m = re.search(r'File "([^"]+)", line (\d+)', out)
+        res["failed_file"] = os.path.relpath(m.group(1), C.COQ) if m else "?"
         res["failed_line"] = int(m.group(2)) if m else 0
     if has_props:
         names = C.count_obligations(props_rel)
@@ -111,7 +118,7 @@ def build_property(plugin, pid):
                 res["ok"] = False
                 res.setdefault("broken", "props")
                 res["messages"].append(out2[-4000:])
-    bad = C.forbidden_gate([f for f in C.vfiles() if ("/" + pid) in f or f.startswith("Lib/")])
+    bad = C.forbidden_gate(files)
     if bad:
         res["ok"] = False
         res.setdefault("broken", "forbidden")
